@@ -100,6 +100,7 @@ def cases(rng, tier):
 SPEC = {
     'lean': ['C03'],
     'cases': cases,
+    'big': True,
     'stream': 'C03 marked-position stream',
     'rule': '47 templates with a marked non-strict position (unused argument, arguments and list elements passed on by fold / filter / pipe (also results of intermediate pipe stages) / spread / collect / map to functions that ignore them, exception contents built / thrown / caught but not inspected, unselected Boolean branch, operands after the '
             'deciding one of Boolean ㄱ / ㄷ, uninspected list elements / dictionary values, map over unused elements, ㄴ after '
